@@ -490,6 +490,13 @@ def project_adapt(sc, run):
                     got = f_from_bits(e2["base"])
                     if want is not None and math.isfinite(got) and not close(want, got, rel=1e-9):
                         daok = False
+        # ... and the *reported* averaged step size (statistic step_size_bar, extracted after the draw's updates) is the
+        # documented weighted average of the iterates (dual averaging) / the current step (Adam)
+        barok = True
+        if model is not None and model.ready and bar_bits and a["tuning"]:
+            want = model.step(True)
+            if want is not None and math.isfinite(bar) and not close(want, bar, rel=1e-9):
+                barok = False
         fedcalls = ",".join(x["which"] for x in d["ss"])
         fedvalok = True
         for x in d["ss"]:
@@ -500,7 +507,7 @@ def project_adapt(sc, run):
                 "tid": a["tid"], "tuning": a["tuning"], "ptuning": o["progress"]["tuning"],
                 "stuning": sval(stt, "tuning"), "fedcalls": fedcalls, "fedvalok": fedvalok,
                 "barsame": bool(barsame), "inband": bool(inband), "stepok": bool(stepok), "good": good,
-                "diag": "lowrank" not in sc["preset"], "mmok": bool(mmok), "daok": bool(daok), "accok": bool(accok),
+                "diag": "lowrank" not in sc["preset"], "mmok": bool(mmok), "daok": bool(daok), "barok": bool(barok), "accok": bool(accok),
                 "stepf": step if math.isfinite(step) else None, "barf": bar if math.isfinite(bar) else None}
         if kind == "global":
             line.update({"switched": a["switched"], "changed": a["changed"], "research": a["research"],
